@@ -1,0 +1,18 @@
+//go:build verif
+
+package gchan
+
+import "context"
+
+// SimYield, when set, is called at the start of every SendC and RecvC
+// (and therefore ReqResp) with the caller's context,
+// the operation ("send" or "recv"), and the canceledDuring label.
+// It exists only under the verif build tag,
+// so that a deterministic simulator can decide when the caller proceeds.
+var SimYield func(ctx context.Context, op, label string)
+
+func yield(ctx context.Context, op, label string) {
+	if f := SimYield; f != nil {
+		f(ctx, op, label)
+	}
+}
